@@ -659,47 +659,53 @@ def run_case(case, obs):
     obs.nontrivial = bool(k >= 2 and active_cfg)
 
     # ---- fit -------------------------------------------------------------------------
-    if fam == "single":
-        base_cls = zoo.SINGLE_ROT.get(cls, cls)
-        kw = dict(
-            n_modes=k,
-            center=case["center"],
-            standardize=case["fields"][0]["standardize"],
-            use_coslat=case["fields"][0]["coslat"],
-            solver="full",
-            random_state=case["dseed"] % 1000,
-        )
-        if _is_hilbert(base_cls):
-            kw.update(padding=case["padding"] if case["padding"] != "none" else None, decay_factor=case["decay"])
-        rot_kw = None
-        if cls in SINGLE_ROT:
-            m = int(np.clip(2 + int(case["rfrac"] * (k - 1)), 1, k)) if k >= 2 else 1
-            rot_kw = dict(n_modes=m, power=case["power"])
-            k = m
-        weights = [F[0]["weights"]] if F[0]["weights"] is not None else None
-        fitted = zoo.fit(cls, [F[0]["data"]], sdims if len(sdims) > 1 else sdims[0], kw, rot_kw=rot_kw, weights=weights)
-    else:
-        kw = dict(
-            n_modes=k,
-            standardize=[f["standardize"] for f in case["fields"]],
-            use_coslat=[f["coslat"] for f in case["fields"]],
-            use_pca=[f["use_pca"] for f in case["fields"]],
-            n_pca_modes=[("all" if q[i] == pv[i] else int(q[i])) for i in range(nf)],
-            solver="full",
-            random_state=case["dseed"] % 1000,
-        )
-        if cls.endswith("CPCCA") or cls == "CPCCARotator":
-            kw["alpha"] = [float(a) for a in alphas]
-        if hil:
-            kw["padding"] = [(p if p != "none" else None) for p in case["padding"]]
-            kw["decay_factor"] = list(case["decay"])
-        weights = [F[0]["weights"], F[1]["weights"]] if (F[0]["weights"] is not None or F[1]["weights"] is not None) else None
-        rot_kw, base_name = None, None
-        if cls in CROSS_ROT:
-            m = int(np.clip(2 + int(case["rfrac"] * (k - 1)), 2, k))
-            rot_kw, base_name = dict(n_modes=m, power=case["power"]), CROSS_ROT[cls][0]
-            k = m
-        fitted = zoo.fit(cls, [F[0]["data"], F[1]["data"]], sdims if len(sdims) > 1 else sdims[0], kw, rot_kw=rot_kw, base_name=base_name, weights=weights)
+    try:
+        if fam == "single":
+            base_cls = zoo.SINGLE_ROT.get(cls, cls)
+            kw = dict(
+                n_modes=k,
+                center=case["center"],
+                standardize=case["fields"][0]["standardize"],
+                use_coslat=case["fields"][0]["coslat"],
+                solver="full",
+                random_state=case["dseed"] % 1000,
+            )
+            if _is_hilbert(base_cls):
+                kw.update(padding=case["padding"] if case["padding"] != "none" else None, decay_factor=case["decay"])
+            rot_kw = None
+            if cls in SINGLE_ROT:
+                m = int(np.clip(2 + int(case["rfrac"] * (k - 1)), 1, k)) if k >= 2 else 1
+                rot_kw = dict(n_modes=m, power=case["power"])
+                k = m
+            weights = [F[0]["weights"]] if F[0]["weights"] is not None else None
+            fitted = zoo.fit(cls, [F[0]["data"]], sdims if len(sdims) > 1 else sdims[0], kw, rot_kw=rot_kw, weights=weights)
+        else:
+            kw = dict(
+                n_modes=k,
+                standardize=[f["standardize"] for f in case["fields"]],
+                use_coslat=[f["coslat"] for f in case["fields"]],
+                use_pca=[f["use_pca"] for f in case["fields"]],
+                n_pca_modes=[("all" if q[i] == pv[i] else int(q[i])) for i in range(nf)],
+                solver="full",
+                random_state=case["dseed"] % 1000,
+            )
+            if cls.endswith("CPCCA") or cls == "CPCCARotator":
+                kw["alpha"] = [float(a) for a in alphas]
+            if hil:
+                kw["padding"] = [(p if p != "none" else None) for p in case["padding"]]
+                kw["decay_factor"] = list(case["decay"])
+            weights = [F[0]["weights"], F[1]["weights"]] if (F[0]["weights"] is not None or F[1]["weights"] is not None) else None
+            rot_kw, base_name = None, None
+            if cls in CROSS_ROT:
+                m = int(np.clip(2 + int(case["rfrac"] * (k - 1)), 2, k))
+                rot_kw, base_name = dict(n_modes=m, power=case["power"]), CROSS_ROT[cls][0]
+                k = m
+            fitted = zoo.fit(cls, [F[0]["data"], F[1]["data"]], sdims if len(sdims) > 1 else sdims[0], kw, rot_kw=rot_kw, base_name=base_name, weights=weights)
+    except RuntimeError as e:
+        if rot and "did not converge" in str(e):
+            # the iterative rotation gave up within max_iter: its documented refusal; convergence is C11's subject
+            obs.refuse("rotation did not converge")
+        raise
     model = fitted.model
     modes = np.arange(1, k + 1)
 
